@@ -410,12 +410,30 @@ func solveBatches(obs []*Oblig, cfg *solverCfg) {
 			if strings.Contains(text, "(error") {
 				return
 			}
-			lines := strings.Split(strings.TrimSpace(text), "\n")
+			// exactly one answer line per obligation, in order; anything else in the output (warnings,
+			// a missing answer after a global timeout) makes the attribution unreliable: the whole batch
+			// is then ignored and every obligation goes to the per-obligation portfolio
+			var lines []string
+			for _, l := range strings.Split(text, "\n") {
+				l = strings.TrimSpace(l)
+				if l == "" {
+					continue
+				}
+				lines = append(lines, l)
+			}
+			if len(lines) > len(list) {
+				return
+			}
+			for _, l := range lines {
+				if l != "unsat" && l != "sat" && l != "unknown" && l != "timeout" {
+					return
+				}
+			}
 			for i, o := range list {
 				if i >= len(lines) {
-					break
+					break // hard time limit reached: the remaining obligations were not attempted
 				}
-				if strings.TrimSpace(lines[i]) == "unsat" {
+				if lines[i] == "unsat" {
 					o.Status = "discharged"
 					o.Solver = "z3-new"
 					o.Time = el / float64(len(list))
